@@ -189,6 +189,16 @@ def main(argv):
             else:
                 print("kept", sc)
         return 0
+    if argv[1] == "batch":
+        # kx.py batch <out.json> <jobs> <harness>...   (timing survey; not a check)
+        sc = make_scratch()
+        try:
+            r = run_kani(sc, argv[4:], jobs=int(argv[3]), timeout_s=3000)
+            json.dump({h: {k: v for k, v in res.items()} for h, res in r["results"].items()}, open(argv[2], "w"), indent=1)
+            open(argv[2] + ".raw", "w").write(r["raw"])
+        finally:
+            shutil.rmtree(sc, ignore_errors=True)
+        return 0
     if argv[1] == "replay":
         sc = make_scratch()
         try:
